@@ -3,6 +3,9 @@ use alloc::vec::Vec;
 
 use alloc::sync::Arc;
 use core::task::Waker;
+#[cfg(futures_concurrency_verif)]
+use crate::__verif_sync::{Mutex, MutexGuard};
+#[cfg(not(futures_concurrency_verif))]
 use std::sync::{Mutex, MutexGuard};
 
 use super::{InlineWakerVec, ReadinessVec};
